@@ -299,6 +299,7 @@ type contract struct {
 	loopAssign map[int][]string
 	assigns    []string // expressions naming objects the function may write; nil = unknown (havoc all); ["nothing"]
 	hasAssigns bool
+	orders     []orderRule // typestate: event A (returned without error) must precede event B on every path
 	absDivMod  bool // division/modulo by non-constants as uninterpreted functions with instance axioms
 	reads      []string // pure functions: pointer parameters whose pointee object is all the function reads (assumed)
 	assumedFrame bool
@@ -307,6 +308,10 @@ type contract struct {
 	panicsWhen string
 	pure       bool // result is a function of the arguments and the heap rows it reads (usable as spec function)
 	line       int
+}
+
+type orderRule struct {
+	label, before, after string
 }
 
 type clause struct {
@@ -397,6 +402,16 @@ func parseContractFile(path, src string) (*contractFile, error) {
 					cur.assigns = append(cur.assigns, a)
 				}
 			}
+			lastClause = nil
+		case "order":
+			// order <label>: <event A> before <event B>     events: <path>.<Method> | store <path>
+			r := rest("order")
+			cl := splitLabel(r)
+			parts := strings.SplitN(cl.expr, " before ", 2)
+			if len(parts) != 2 {
+				return nil, fmt.Errorf("%s:%d: bad order clause", path, ln+1)
+			}
+			cur.orders = append(cur.orders, orderRule{cl.label, strings.TrimSpace(parts[0]), strings.TrimSpace(parts[1])})
 			lastClause = nil
 		case "reads":
 			for _, a := range splitTopLevel(rest("reads"), ',') {
